@@ -19,7 +19,7 @@ def run(chk):
     import zigpy_zboss.types as t
     from zigpy_zboss.frames import Frame, HLPacket, LLHeader
     from zigpy_zboss.checksum import CRC8
-    from impl_link import make_proto, show_frame
+    from impl_link import make_proto, show_frame, stamp_all
     ok = chk.build(["consts", "bitfields", "tables"])
     rng = chk.rng
     model = getattr(chk, "model", None)
@@ -115,10 +115,7 @@ def run(chk):
               .with_type(t.TYPE_ZBOSS_NCP_API_HL).with_flags(t.LLFlags.LastFrag | t.LLFlags.FirstFrag))
         fr = Frame(ll, hl)
         raw = fr.serialize()
-        log = []
-        proto, _ = make_proto(log, pack_seq=s)
-        fr2 = proto._ll_checksum(proto._set_frame_flag(fr))
-        st = fr2.serialize()
+        st = stamp_all([fr], s)[0]
         got = "%s %s" % (hexs(raw), hexs(st))
         chk.note_case((h, d, s), nontrivial=len(d) > 0)
         chk.count("payload_%s" % ("0" if not d else "1-243" if len(d) <= 243 else ">243"))
@@ -164,9 +161,7 @@ def run(chk):
             fbad = (h, hexs(d), total, "handle_tx_fragmentation raised %s" % type(e).__name__)
             break
         seq = rng.randrange(4)
-        log = []
-        proto, _ = make_proto(log, pack_seq=seq)
-        wire = [proto._ll_checksum(proto._set_frame_flag(f)).serialize() for f in frs]
+        wire = stamp_all(frs, seq)
         outs = model.batch(["specdec %s" % hexs(b) for b in wire])
         chk.note_case(("frag", total, h), nontrivial=len(frs) > 1)
         chk.count("fragmented_messages")
@@ -211,7 +206,7 @@ def run(chk):
     if bad:
         chk.violation("acknowledgement frame wrong: %r" % (bad,), {"case": bad}, key="ack:%d:%d" % bad[:2])
     chk.assumptions = ["zigpy uintN_t.serialize()/deserialize() are little-endian fixed width (tested through Tie B)",
-                       "stamping is observed through uart._set_frame_flag/_ll_checksum on a real ZbossNcpProtocol"]
+                       "stamping is observed on a real ZbossNcpProtocol (its two stamping helpers, or send() under the virtual loop)"]
     return chk.finish()
 
 
